@@ -19,3 +19,5 @@ PROPERTY = PropertySpec(
     technique='contract-based deductive verification of Symbol.combine (pyvc + z3); bounded metamorphic run-time contract for layouts',
     design_ref='DESIGN.md section 10 / C14',
 )
+
+PROPERTY.explanation += ' The tokeniser lemma and differential of C01 are part of this check (layout inside index brackets, blanks before a call parenthesis, keyword followed by a parenthesis).'
